@@ -205,16 +205,17 @@ package frame
 
 // unsealedBy: the session under which this frame was last authenticated (nil before / after a failed attempt)
 //@ type FrameV1
-//@   ghost unsealedBy ref
+//@   ghost unsealedBy *state.Session
 // authBy: the session whose key authenticated the frame's bytes at the last Unseal, even when the sequence check
 // that follows then refused it as a duplicate (nil if the signature / MAC did not verify)
-//@   ghost authBy ref
+//@   ghost authBy *state.Session
 
 //@ func FrameV1.Unseal
 //@   requires live(f) && s != nil
 //@   update when true: f.unsealedBy = (result == nil ? s : nil)
 //@   update when true: f.authBy = ((sig_ok || aead_ok) ? s : nil)
 //@   ensures unsealed-implies-authenticated [C07]: result == nil ==> (sig_ok || aead_ok)
+//@   ensures signed-frames-are-sequence-checked-only-after-verification [C07]: (f.data[4] == uint8(RouterHopPing) || f.data[4] == uint8(RouterHopPingDeprecated) || f.data[4] == uint8(RouterPing)) && errIs(result, state.ErrImmediateDuplicateFrame) ==> sig_ok
 //@   modifies f.data[1:3], f.data[f.messageIndex+2 : f.appendixIndex], any("F|state."), any("F|sync/atomic.Uint32")
 //@   callsite ed25519.Verify signed-range [C02]: base(arg1) == base(f.data) && off(arg1) == off(f.data) && len(arg1) == f.authIndex
 //@   callsite ed25519.Verify signature-slot [C02]: base(arg2) == base(f.data) && off(arg2) == off(f.data) + f.authIndex && len(arg2) == f.appendixIndex - f.authIndex
